@@ -645,7 +645,7 @@ def c_monitor(count_width=32, counters=("tokens", "overflows", "underflows", "pa
     # the count and latch registers are clocked by clock_domain, the command toggles by sys
     cnt = [r for r, gg in g.reg.items() if gg.kind == "ff" and r.nbits == count_width and r is not d.bus.dat_r]
     tog = [m for m in g.multiregs if len(m.i) == 1]
-    okc = len(cnt) == 2 * len(counters) and all(g.reg[r].dom == "mon" for r in cnt) and len(tog) == 2 and all(g.reg[g.base(m.i)].dom == "sys" and m.odomain == "mon" for m in tog)
+    okc = len(cnt) == 2 * len(counters) and all(g.reg[r].dom == "mon" for r in cnt) and len(tog) == 2 and all(g.base(m.i) in g.reg and g.reg[g.base(m.i)].dom == "sys" and m.odomain == "mon" for m in tog)       # the source of each crossing flop chain is ONE sys register (a toggle), not combinational logic
     out.append(res("ens.renaming.count/latch-registers-in-clock_domain,reset/latch-pulses-cross-sys->clock_domain", "ensures", PROVED if okc else VIOLATED, 0, "static analysis"))
     out.append(summary(g, xs, t0, 2 + len(counters)))
     return dict(results=out, functions=["litex.soc.interconnect.stream.Monitor.__init__", "litex.soc.interconnect.csr_bus.CSRBank.__init__ (as the sampler of the status words)"])
